@@ -49,6 +49,23 @@ def rand_array(rng, rank=None, maxrank=4, maxn=4, minn=0, vkind=None, dims=None,
     return {"axes": axes, "vkind": vkind or rng.choice(["f", "f", "i"])}
 
 
+def dtype_variants(rng, arr, p=0.3):
+    """representation variants that do not change the logical array: narrower / unsigned label dtypes,
+    float32 / int32 values, Fortran memory order (recorded as plain fields of the case)"""
+    for ax in arr["axes"]:
+        if ax["kind"] == "i" and rng.random() < p:
+            ax["ldtype"] = rng.choice(["uint8", "uint16", "int32", "uint64"])
+        elif ax["kind"] == "f" and rng.random() < p:
+            ax["ldtype"] = "float32"
+    if arr.get("vkind") == "f" and rng.random() < p:
+        arr["vdtype"] = "float32"
+    elif arr.get("vkind") == "i" and rng.random() < p:
+        arr["vdtype"] = "int32"
+    if len(arr["axes"]) >= 2 and rng.random() < p:
+        arr["order"] = "F"
+    return arr
+
+
 def absent_label(rng, ax, frac=False):
     """a label of the axis' kind that is not on the axis"""
     present = {tuple(l) for l in ax["labels"]}
